@@ -63,7 +63,14 @@ pub const CONTEXTS: &[(&str, &str, &str)] = &[
     ("coproc", "coproc { ", "\n}; wait"),
     ("nested-subshell", "( ( ", "\n) )"),
     ("func-subshell-body", "fsb() ( ", "\n); fsb"),
+    ("pipe-first-of-3", "{ ", "\n} | vcat | vcat >/dev/null"),
+    ("pipe-middle-of-3", "vtrue | { ", "\n} | vcat >/dev/null"),
+    ("pipe-third-of-4", "vtrue | vcat | { ", "\n} | vcat >/dev/null"),
+    ("cmdsub-in-pipe-final", "vtrue | rr__=$( ", "\n)"),
 ];
+
+/// Options of the PARENT under which the same contexts must still isolate (set before the state dump).
+pub const PARENT_MODES: &[(&str, &str)] = &[("default", ""), ("lastpipe", "shopt -s lastpipe\n"), ("pipefail", "set -o pipefail\n"), ("posix", "set -o posix\n"), ("lastpipe+pipefail", "shopt -s lastpipe; set -o pipefail\n")];
 
 const VOLATILE_VARS: &[&str] = &["_", "BASH_COMMAND", "PIPESTATUS", "RANDOM", "SRANDOM", "SECONDS", "LINENO", "rr__", "COPROC", "COPROC_PID", "EPOCHSECONDS", "EPOCHREALTIME", "BASH_SUBSHELL", "FUNCNAME", "BASH_LINENO", "BASH_SOURCE", "BASH_ARGV", "BASH_ARGC"];
 
@@ -163,6 +170,7 @@ pub fn worker() -> Handler {
     Box::new(move |case: &[u8]| {
         let v: Value = serde_json::from_slice(case).unwrap();
         let script = v["s"].as_str().unwrap_or("").to_string();
+        let mode_setup = v["mode"].as_str().unwrap_or("").to_string();
         let dir = ip.fresh_dir();
         let ipr: &Inproc = &ip;
         let nofile_before = unsafe {
@@ -175,7 +183,7 @@ pub fn worker() -> Handler {
             ipr.bind_stdio(&mut sh);
             let params = sh.default_exec_params();
             let src = brush_core::SourceInfo::default();
-            let _ = sh.run_string(PARENT_SETUP.to_string(), &src, &params).await;
+            let _ = sh.run_string(format!("{PARENT_SETUP}{mode_setup}"), &src, &params).await;
             let before = dump(&sh);
             let fds_before = std::fs::read_dir("/proc/self/fd").map(|d| d.count()).unwrap_or(0);
             let r = sh.run_string(script.clone(), &src, &params).await;
@@ -213,10 +221,16 @@ pub fn worker() -> Handler {
 
 pub fn run(tier: Tier, replay: Option<Value>) -> ! {
     let mut rep = Report::new("C12", tier, "exploration");
-    let mut cases: Vec<(String, Vec<String>)> = vec![];
+    // (script, tags, parent mode index)
+    let mut cases: Vec<(String, Vec<String>, usize)> = vec![];
     if let Some(r) = &replay {
         rep.replay_mode = true;
-        cases.push((r["case"].as_str().unwrap_or("").to_string(), vec![]));
+        let c = r["case"].as_str().unwrap_or("");
+        let (mode, script) = match c.strip_prefix("[parent: ").and_then(|x| x.split_once("]\n")) {
+            Some((m, rest)) => (PARENT_MODES.iter().position(|p| p.0 == m).unwrap_or(0), rest),
+            None => (0, c),
+        };
+        cases.push((script.to_string(), vec![], mode));
     } else {
         let seqs = enumerate::sequences(MUTATORS.len(), tier.pick(2, 3));
         for s in seqs.iter().filter(|s| !s.is_empty()) {
@@ -231,20 +245,37 @@ pub fn run(tier: Tier, replay: Option<Value>) -> ! {
                     continue;
                 }
                 let body: String = s.iter().map(|i| MUTATORS[*i].1).collect::<Vec<_>>().join("\n");
-                let mut tags: Vec<String> = s.iter().map(|i| format!("mut:{}", MUTATORS[*i].0)).collect();
-                tags.sort();
-                tags.dedup();
-                tags.push(format!("ctx:{cn}"));
-                cases.push((format!("{open}{body}{close}"), tags));
+                for (mi, (mn, _)) in PARENT_MODES.iter().enumerate() {
+                    // quick: the non-default parent modes take the single mutators in every context
+                    if mi > 0 && tier == Tier::Quick && s.len() > 1 {
+                        continue;
+                    }
+                    if mi > 0 && s.len() == 3 {
+                        continue;
+                    }
+                    // with lastpipe the final stage legitimately runs in the parent
+                    if mn.starts_with("lastpipe") && *cn == "pipe-final" {
+                        continue;
+                    }
+                    let mut tags: Vec<String> = s.iter().map(|i| format!("mut:{}", MUTATORS[*i].0)).collect();
+                    tags.sort();
+                    tags.dedup();
+                    tags.push(format!("ctx:{cn}"));
+                    if mi > 0 {
+                        tags.push(format!("parent:{mn}"));
+                    }
+                    cases.push((format!("{open}{body}{close}"), tags, mi));
+                }
             }
         }
     }
     let cfg = PoolCfg::new("c12").timeout_ms(20_000);
-    let bytes: Vec<Vec<u8>> = cases.iter().map(|(s, _)| json!({"s": s}).to_string().into_bytes()).collect();
+    let bytes: Vec<Vec<u8>> = cases.iter().map(|(s, _, m)| json!({"s": s, "mode": PARENT_MODES[*m].1}).to_string().into_bytes()).collect();
     let outs = pool::run(&cfg, &bytes);
     for (i, o) in outs.iter().enumerate() {
         rep.evaluations += 1;
-        let (script, tags) = &cases[i];
+        let (script0, tags, mi) = &cases[i];
+        let script = &if *mi == 0 { script0.clone() } else { format!("[parent: {}]\n{script0}", PARENT_MODES[*mi].0) };
         match o {
             Outcome::Ok(b) => {
                 let v: Value = serde_json::from_slice(b).unwrap_or(Value::Null);
@@ -297,12 +328,14 @@ pub fn run(tier: Tier, replay: Option<Value>) -> ! {
     rep.set("mutators", MUTATORS.len() as u64);
     rep.set("contexts", CONTEXTS.len() as u64);
     rep.rule = format!(
-        "all sequences of <= {} mutators over {} ({}) inside each of {} contexts ({}); parent state = serde dump of the Shell (minus $?, $_, PIPESTATUS, clocks, path cache) + builtin enablement + process umask, RLIMIT_NOFILE, cwd, descriptor count; plus 9 nested-parenthesis parse probes against bash",
+        "all sequences of <= {} mutators over {} ({}) inside each of {} contexts ({}), with the parent under {} option modes ({}; quick: single mutators for the non-default modes); parent state = serde dump of the Shell (minus $?, $_, PIPESTATUS, clocks, path cache) + builtin enablement + process umask, RLIMIT_NOFILE, cwd, descriptor count; plus 9 nested-parenthesis parse probes against bash",
         tier.pick(2, 3),
         MUTATORS.len(),
         MUTATORS.iter().map(|m| m.0).collect::<Vec<_>>().join(", "),
         CONTEXTS.len(),
-        CONTEXTS.iter().map(|c| c.0).collect::<Vec<_>>().join(", ")
+        CONTEXTS.iter().map(|c| c.0).collect::<Vec<_>>().join(", "),
+        PARENT_MODES.len(),
+        PARENT_MODES.iter().map(|c| c.0).collect::<Vec<_>>().join(", ")
     );
     rep.assumptions.push("each worker is a private process; process-wide state is reset between cases".into());
     rep.finish()
